@@ -55,6 +55,9 @@ type ModScript struct {
 	DeviceHas    bool       `json:"devhas"`
 	Rounds       []OwnRound `json:"rounds,omitempty"`
 	DoneWithLast bool       `json:"donewithlast,omitempty"` // report done together with the last round (no replies allowed there)
+	// ActiveYield is what a device-driven module writes from the Yield that follows its activation
+	// (the owner's first service info for a module carries nothing but <module>:active)
+	ActiveYield []DevOp `json:"activeyield,omitempty"`
 }
 
 type Script struct {
@@ -134,6 +137,10 @@ func Sanitize(s *Script) {
 	for mi := range s.Mods {
 		m := &s.Mods[mi]
 		m.NameLen = min(max(m.NameLen, 0), 30)
+		m.ActiveYield = fixOps(m.ActiveYield)
+		if !m.DeviceHas {
+			m.ActiveYield = nil
+		}
 		for ri := range m.Rounds {
 			r := &m.Rounds[ri]
 			for i := range r.Msgs {
@@ -362,11 +369,13 @@ type devMod struct {
 	lastRound int
 	fresh     bool
 	yields    int
+	justActivated bool
 }
 
 func (d *devMod) Transition(active bool) error {
 	d.mu.Lock()
 	d.Trans = append(d.Trans, active)
+	d.justActivated = active
 	d.mu.Unlock()
 	return nil
 }
@@ -446,7 +455,12 @@ func (d *devMod) Yield(ctx context.Context, respond func(string) io.Writer, yiel
 	d.yields++
 	fresh, r := d.fresh, d.lastRound
 	d.fresh = false
+	activated := d.justActivated
+	d.justActivated = false
 	d.mu.Unlock()
+	if activated && d.idx < len(d.w.s.Mods) {
+		d.runOps(d.w.s.Mods[d.idx].ActiveYield, respond, yield)
+	}
 	if fresh && d.idx < len(d.w.s.Mods) && r < len(d.w.s.Mods[d.idx].Rounds) {
 		d.runOps(d.w.s.Mods[d.idx].Rounds[r].YieldReply, respond, yield)
 	}
@@ -765,6 +779,9 @@ func GenScript(t *rapid.T) Script {
 			}
 			rd.YieldReply = genOps(t, own, "yreply")
 			m.Rounds = append(m.Rounds, rd)
+		}
+		if rapid.IntRange(0, 2).Draw(t, "activeyield") == 0 {
+			m.ActiveYield = genOps(t, own, "ayield")
 		}
 		s.Mods = append(s.Mods, m)
 	}
